@@ -166,6 +166,10 @@ def gen_table(rng, idx):
         r = rng.random()
         if r < 0.15:
             return float(rng.choice([1, 2, 5, 10, 100, 0.5, 0.25]))
+        if r < 0.25:        # repr in exponent notation: mantissa with a fraction, exponents ending in 0 and not
+            return float(rng.choice(["2.5e+20", "1.25e-10", "7.5e+30", "3.125e-20", "1e+20", "2.5e+17", "1.5e-07", "9.75e+100"]))
+        if r < 0.30:        # a rate within a millionth of another row's (a peg that is not exact)
+            return float(repr(rng.choice([1.00000025, 0.99999975, 1.0000005])))
         return float(repr(10 ** rng.uniform(-6, 6)))
     for _ in range(n):
         s = fresh()
@@ -351,9 +355,15 @@ def run(ctx):
         for b in t["bases"]:
             home = os.path.join(root, "home_%d_%s" % (ti, "".join(ch if ch.isalnum() else "_" for ch in b)))
             os.makedirs(os.path.join(home, ".config", "ka"))
-            open(os.path.join(home, ".config", "ka", "config"), "w").write("base-currency = %s\n" % b)
-            if t["file"]:
-                shutil.copy(t["file"], os.path.join(home, ".config", "ka", "currency"))
+            if t["file"] and ti % 2 == 0:
+                odd = os.path.join(home, "fx#2024 rates", "my=table")
+                os.makedirs(os.path.dirname(odd))
+                shutil.copy(t["file"], odd)
+                open(os.path.join(home, ".config", "ka", "config"), "w").write("base-currency = %s\ncurrency-path = %s\n" % (b, odd))
+            else:
+                open(os.path.join(home, ".config", "ka", "config"), "w").write("base-currency = %s\n" % b)
+                if t["file"]:
+                    shutil.copy(t["file"], os.path.join(home, ".config", "ka", "currency"))
             sp = os.path.join(home, "spec.json")
             json.dump(dict(exprs=[e[0] for e in exprs], parse_text=t.get("text")), open(sp, "w"))
             jobs.append((home, driver, sp))
